@@ -27,18 +27,18 @@ var killSentinel = &killT{}
 
 // Task is one simulated goroutine.
 type Task struct {
-	ID      int
-	Name    string
-	Group   int
-	Tag     string // what the task is doing (set by the harness), for reports
-	wake    chan struct{}
-	state   int
-	killed  bool
-	waitOn  string
-	prio    int64
-	weight  float64
-	polling bool
-	held    bool
+	ID        int
+	Name      string
+	Group     int
+	Tag       string // what the task is doing (set by the harness), for reports
+	wake      chan struct{}
+	state     int
+	killed    bool
+	waitOn    string
+	prio      int64
+	weight    float64
+	polling   bool
+	held      bool
 	wants     bool
 	wantsLock uint64
 	heldLocks []uint64
@@ -70,9 +70,9 @@ type Config struct {
 	// grant this many further steps before reporting (liveness is demanded only
 	// once adversarial scheduling stops)
 	SecondChance uint64
-	Clock    int // 0 monotone, 1 constant, 2 jumping
-	Replay   []uint32
-	Record   bool
+	Clock        int // 0 monotone, 1 constant, 2 jumping
+	Replay       []uint32
+	Record       bool
 }
 
 // Sim is one simulation.
@@ -102,13 +102,13 @@ type Sim struct {
 }
 
 type Stats struct {
-	Steps      uint64
-	Switches   uint64
-	Choices    uint64
-	Tasks      int
-	MutexBlock uint64
-	CondWait   uint64
-	SimNanos   int64
+	Steps         uint64
+	Switches      uint64
+	Choices       uint64
+	Tasks         int
+	MutexBlock    uint64
+	CondWait      uint64
+	SimNanos      int64
 	SecondChances uint64
 }
 
